@@ -348,6 +348,26 @@ def rand_linear(linear, num_rand):
     return reduced
 
 
+def rand_columns(raffine, num_rand):
+    """
+    Coefficients of the random variables (an affine expression of
+    decisions with one column for each random variable), padded with zero
+    columns if it was built before later random variables were declared.
+    """
+
+    size, num = raffine.shape
+    if num >= num_rand:
+        return raffine
+
+    rows = (np.arange(size).reshape((size, 1)) * num_rand +
+            np.arange(num)).flatten()
+    expand = csr_matrix((np.ones(size*num), (rows, np.arange(size*num))),
+                        shape=(size*num_rand, size*num))
+    const = np.hstack((raffine.const, np.zeros((size, num_rand - num))))
+
+    return Affine(raffine.model, expand @ raffine.linear, const)
+
+
 class Model:
     """
     The Model class creates an LP model object.
@@ -2872,7 +2892,9 @@ class RoAffine:
             else:
                 left = self
                 right = other
-            raffine = left.raffine + right.raffine
+            num_rand = max(left.raffine.shape[1], right.raffine.shape[1])
+            raffine = (rand_columns(left.raffine, num_rand) +
+                       rand_columns(right.raffine, num_rand))
             affine = left.affine + right.affine
             if self.dec_model is not other.dec_model or \
                self.rand_model is not other.rand_model:
